@@ -23,3 +23,6 @@ int64_t ref_char_to_upper(int64_t c) { return char_to_upper(c); }
 int64_t ref_abs(int64_t a) { return nl_abs(a); }
 int64_t ref_min(int64_t a, int64_t b) { return nl_min(a, b); }
 int64_t ref_max(int64_t a, int64_t b) { return nl_max(a, b); }
+bool ref_str_equals(const char *a, const char *b) { return nl_str_equals(a, b); }
+bool ref_str_contains(const char *a, const char *b) { return nl_str_contains(a, b); }
+int64_t ref_str_length(const char *a) { return (int64_t)strlen(a); }      /* the transpiler emits strlen(s) inline for str_length */
